@@ -49,7 +49,7 @@ ASSUMPTIONS = [
     'the region "below the minimum" is T < Tmin / P < Pmin strictly, "at or above the maximum" clamps (code reading; '
     'both give the same value on the boundary except for the documented zero below BOTH minima)',
 ]
-_Q = {'xsec': 60, 'ktable': 25, 'files': 8, 'zeros': 10}
+_Q = {'xsec': 50, 'ktable': 20, 'files': 6, 'zeros': 8}
 _T = {'xsec': 200, 'ktable': 80, 'files': 20, 'zeros': 25}
 BUDGET = {
     'quick': [dict(name='boundscheck', env={'NUMBA_BOUNDSCHECK': '1'}, shards=8, cases=_Q)],
